@@ -84,7 +84,7 @@ func ruleOtherScanners(c *core.Ctx, rule string) {
 		for _, b := range fn.Blocks {
 			for _, in := range b.Instrs {
 				call, ok := in.(*ssa.Call)
-				if !ok || call.Call.StaticCallee() == nil || call.Call.StaticCallee().String() != "bufio.NewScanner" {
+				if !ok || core.Callee(&call.Call) == nil || core.Callee(&call.Call).String() != "bufio.NewScanner" {
 					continue
 				}
 				n++
@@ -93,7 +93,7 @@ func ruleOtherScanners(c *core.Ctx, rule string) {
 					// generic typestate: some Err() call on the same scanner must exist and be a C10-R2 site
 					hasErr := false
 					for _, r := range *call.Referrers() {
-						if rc, ok := r.(*ssa.Call); ok && isMethod(rc.Call.StaticCallee(), "bufio", "Scanner", "Err") {
+						if rc, ok := r.(*ssa.Call); ok && isMethod(core.Callee(&rc.Call), "bufio", "Scanner", "Err") {
 							hasErr = true
 						}
 					}
